@@ -5,7 +5,7 @@ from . import env, outline
 
 
 class Session:
-    def __init__(self, show_unprocessed=True, color=False, filter_text=None, stop_text=None, verbose=False):
+    def __init__(self, show_unprocessed=True, color=False, filter_text=None, stop_text=None, verbose=False, matchers=None):
         env.setup()
         env.load_protocols()
         env.reset_globals(color)
@@ -39,6 +39,8 @@ class Session:
         self.cm = ConnectionManager()
         fm = matcher.parse(filter_text).simplify() if filter_text else matcher.always
         sm = matcher.parse(stop_text).simplify() if stop_text else matcher.never
+        if matchers is not None:
+            fm, sm = matchers         # as main.main() gets them: from frontends.tui.parse_args (-f / -b)
         self.ctl = Controller(self.output, self.cm, fm, sm)
         self.uirec = UIRec()
         self.ctl.add_ui_state_listener(self.uirec)
